@@ -184,12 +184,13 @@ class System(SharedRegistryObject):
 
                 # Here we invert the equation, in other words
                 # we write old units in terms new unit and expansion
+                old_unit_exponent = new_unit_expanded[old_unit]
                 new_unit_dict = {
-                    new_unit: -1 / value
-                    for new_unit, value in new_unit_expanded.items()
-                    if new_unit != old_unit
+                    unit: -value / old_unit_exponent
+                    for unit, value in new_unit_expanded.items()
+                    if unit != old_unit
                 }
-                new_unit_dict[new_unit] = 1 / new_unit_expanded[old_unit]
+                new_unit_dict[new_unit] = 1 / old_unit_exponent
 
                 base_unit_names[old_unit] = new_unit_dict
 
